@@ -281,6 +281,17 @@ impl std::io::Write for SharedBuf {
     fn flush(&mut self) -> std::io::Result<()> { Ok(()) }
 }
 
+#[derive(Clone)]
+struct ShortBuf(Arc<Mutex<Vec<u8>>>);
+impl std::io::Write for ShortBuf {
+    fn write(&mut self, b: &[u8]) -> std::io::Result<usize> {
+        let k = b.len().min(7);
+        self.0.lock().unwrap().extend_from_slice(&b[..k]);
+        Ok(k)
+    }
+    fn flush(&mut self) -> std::io::Result<()> { Ok(()) }
+}
+
 fn mask_time(s: &str) -> String {
     s.lines().map(|l| if l.starts_with("solve time") { "solve time = <masked>" } else { l }).collect::<Vec<_>>().join("\n")
 }
@@ -304,6 +315,13 @@ fn parse_config(buf: &str) -> Value {
             let name = r.split('=').next().unwrap_or("").trim().to_string();
             let cnt = r.split('=').nth(1).and_then(|x| x.split(',').next()).and_then(|x| x.trim().parse::<i64>().ok());
             if let Some(c) = cnt { m.insert(format!("cone_{}", name), json!(c)); }
+            // the dimensions as shown: a single number, or a parenthesised list, possibly with an ellipsis
+            if let Some(txt) = r.split("numel =").nth(1) {
+                let txt = txt.trim().trim_start_matches('(').trim_end_matches(')');
+                let ell = txt.contains("...");
+                let list: Vec<i64> = txt.split(',').filter_map(|x| x.trim().parse::<i64>().ok()).collect();
+                m.insert(format!("dims_{}", name), json!({"list": list, "ellipsis": ell}));
+            }
         }
         if let Some(r) = t.strip_prefix("max iter = ").filter(|_| !m.contains_key("max_iter")) {
             if let Some(k) = r.split(',').next().and_then(|x| x.trim().parse::<i64>().ok()) { m.insert("max_iter".into(), json!(k)); }
@@ -380,6 +398,12 @@ pub fn print_case(run: usize, p: &Problem, dir: &str) -> Value {
         drop(s3);
         let b3 = std::fs::read_to_string(&path).unwrap();
         let _ = std::fs::remove_file(&path);
+        // a stream that takes at most 7 bytes per write call: the same bytes must arrive
+        let short = ShortBuf(Arc::new(Mutex::new(vec![])));
+        let mut s7 = mk(true);
+        s7.print_to_stream(Box::new(short.clone()));
+        s7.solve();
+        let b7 = String::from_utf8_lossy(&short.0.lock().unwrap()).to_string();
         // verbose off: buffer and stream stay empty
         let mut s4 = mk(false);
         s4.print_to_buffer();
@@ -400,6 +424,7 @@ pub fn print_case(run: usize, p: &Problem, dir: &str) -> Value {
         // internal facts for the configuration header
         let d = &s1.data;
         let mut ccount = std::collections::HashMap::new();
+        let mut cdims = std::collections::HashMap::<String, Vec<usize>>::new();
         for c in &d.cones {
             let name = match ConeSpec::from_clarabel(c) {
                 ConeSpec::Zero(_) => "Zero", ConeSpec::Nonneg(_) => "Nonnegative", ConeSpec::Soc(_) => "SecondOrder",
@@ -407,6 +432,7 @@ pub fn print_case(run: usize, p: &Problem, dir: &str) -> Value {
                 ConeSpec::Psd(_) => "PSDTriangle",
             };
             *ccount.entry(name.to_string()).or_insert(0i64) += 1;
+            cdims.entry(name.to_string()).or_default().push(ConeSpec::from_clarabel(c).numel());
         }
         let removed = (p.m() as i64) - (d.m as i64);
         let sol = &s1.solution;
@@ -417,11 +443,12 @@ pub fn print_case(run: usize, p: &Problem, dir: &str) -> Value {
         let infeas = sol.obj_val.is_nan();
         json!({"ev": "PrintCase", "run": run,
             "same_stream": mask_time(&b1) == mask_time(&b2), "same_file": mask_time(&b1) == mask_time(&b3),
+            "same_short_stream": mask_time(&b1) == mask_time(&b7),
             "len_buffer": b1.len(), "len_quiet_buffer": b4.len(), "len_quiet_stream": b5len, "len_after_sink": b6.len(),
             "getbuf_err": [getbuf_stream_err, getbuf_file_err, getbuf_sink_err],
             "parsed": rec_ipm::parse_print(&b1), "config": parse_config(&b1),
             "internal": {"n": d.n, "m": d.m, "nnzP": d.P.nnz(), "nnzA": d.A.nnz(), "ncones": d.cones.len(),
-                         "removed": removed, "has_presolver": removed > 0, "cones": ccount,
+                         "removed": removed, "has_presolver": removed > 0, "cones": ccount, "dims": cdims,
                          "max_iter": p.settings().max_iter, "settings": expected_settings(&p.settings())},
             "status": STATUS_NAMES[sol.status as usize], "iterations": sol.iterations,
             "last": {"has": lr.is_some(), "iter": lr.as_ref().and_then(|r| r.first()).and_then(|x| x.parse::<i64>().ok()).unwrap_or(-1),
